@@ -58,4 +58,10 @@ theorem src_C19_nodata_cb (l : String) (isNumber : String → Bool) :
 /-- every lock is created once, by the thread that constructs the object (or that calls `stats`), never by a worker (C04) -/
 theorem src_C04_locks : lockSitesModel = locks_created := rfl
 
+/-- `KernelModel`, `RefSpaceModel`, `SrcSpaceModel` (C04): no method other than `__init__` stores into the object that all blocks
+    share (nor into its class, a global or a non-local) - the hypothesis `Stateless` of `stateless_compute_interleaving_independent`,
+    read off the source text.  A note kept on the object between `fit` and `apply` changes the generated list. -/
+theorem src_C04_model_state : sharedModelWritesModel = modelState_writes := rfl
+
+
 end Homonim
